@@ -9,13 +9,14 @@ VERIF = os.path.dirname(HERE)
 sys.path.insert(0, HERE)
 BASE = json.load(open("/root/.vp/BASELINE.json"))["cmd"] if os.path.exists("/root/.vp/BASELINE.json") else "cd /repo && /venv/bin/python -m pytest -q"
 props = [json.loads(l) for l in open(os.path.join(VERIF, "properties.jsonl"))]
+READY = set(open(os.path.join(HERE, "ready.txt")).read().split())  # checks the coordinator has verified end to end
 checks, na = [], []
 for p in props:
     pid = p["id"]
     try:
         m = importlib.import_module("props.%s" % pid.lower())
         _ = (m.LEVEL_TEXT, m.LEVEL_NOTE, m.TECHNIQUE, m.generate, m.run_impl, m.emit)
-        if not os.path.exists(os.path.join(VERIF, "coq", m.PROPS_FILE)) or getattr(m, "NOT_READY", False):
+        if not os.path.exists(os.path.join(VERIF, "coq", m.PROPS_FILE)) or pid not in READY:
             raise AttributeError("not ready")
     except (ModuleNotFoundError, AttributeError, SyntaxError, ImportError):
         na.append({"property_id": pid, "reason": "check not built yet (planned: Coq model + theorems + correspondence, see DESIGN.md section 6)"})
